@@ -321,3 +321,953 @@ def packedCaret : UInt8 := {caret[0]}
 end Dulwich.Gen.Refs
 """
     return {"Refs": src}
+
+
+# ------------------------------------------------------------------------------------------------
+# universe
+
+HEAD = b"HEAD"
+ZERO = b"0" * 40
+SYM = b"ref: "
+NAMES = [HEAD, b"refs/heads/a", b"refs/heads/a/b", b"refs/heads/m", b"refs/heads/s", b"refs/heads/t",
+         b"refs/tags/v", b"refs/tags/w", b"refs/remotes/o/m", b"refs/heads/d/e/f"]
+WEIGHTS = [3, 5, 5, 3, 3, 2, 3, 2, 2, 2]
+BAD_NAME = b"refs/heads/x..y"          # rejected by _check_refname (model correspondence only)
+MISSING_TARGET = b"refs/heads/zz"      # a symref target that never exists
+NS = b"foo"
+NS_PREFIX = b"refs/namespaces/foo/"
+OUTSIDE = b"refs/heads/outside"        # a ref of the inner container that is not in the namespace
+BAD_VALUE = b"xyz"
+
+
+def is_anc(p: bytes, n: bytes) -> bool:
+    return n.startswith(p + b"/")
+
+
+def collides(m: dict, r: bytes) -> bool:
+    return any(k != r and (is_anc(k, r) or is_anc(r, k)) for k in m)
+
+
+# ------------------------------------------------------------------------------------------------
+# scratch repositories (objects really exist, so that C git can list and peel)
+
+class Repos:
+    def __init__(self, ctx):
+        self.root = ctx.scratch / "c16"
+        self.root.mkdir(parents=True, exist_ok=True)
+        self.env = core.clean_env({"GIT_AUTHOR_DATE": "1700000000 +0000", "GIT_COMMITTER_DATE": "1700000000 +0000",
+                                   "GIT_AUTHOR_NAME": "verif", "GIT_COMMITTER_NAME": "verif",
+                                   "GIT_AUTHOR_EMAIL": "verif@example.com", "GIT_COMMITTER_EMAIL": "verif@example.com"})
+        self.n = 0
+        t = self.root / "tmpl"
+        if not t.exists():
+            self._run(["git", "init", "-q", "--bare", str(t)])
+            tree = self.git(t, "mktree", inp=b"").strip().decode()
+            a = self.git(t, "commit-tree", tree, "-m", "A").strip().decode()
+            b = self.git(t, "commit-tree", tree, "-p", a, "-m", "B").strip().decode()
+            c = self.git(t, "commit-tree", tree, "-p", b, "-m", "C").strip().decode()
+            tg = self.git(t, "mktag", inp=f"object {a}\ntype commit\ntag v\ntagger verif <verif@example.com> "
+                                          f"1700000000 +0000\n\nt\n".encode()).strip().decode()
+            (t / "shas").write_text(" ".join([a, b, c, tg]))
+        a, b, c, tg = (t / "shas").read_text().split()
+        self.A, self.B, self.C, self.TG = a.encode(), b.encode(), c.encode(), tg.encode()
+        self.values = [self.A, self.B, self.C, self.TG]
+        self.peel = {self.A: self.A, self.B: self.B, self.C: self.C, self.TG: self.A}
+        self.tmpl = t
+
+    def _run(self, cmd, inp=None, check=True):
+        import subprocess
+        p = subprocess.run(cmd, env=self.env, input=inp, stdout=subprocess.PIPE, stderr=subprocess.PIPE)
+        if check and p.returncode != 0:
+            raise core.InfraError(f"{cmd}: {p.stderr.decode(errors='replace')[:400]}")
+        return p
+
+    def git(self, d, *args, inp=None, check=True) -> bytes:
+        return self._run(["git", "-C", str(d)] + list(args), inp=inp, check=check).stdout
+
+    def git_rc(self, d, *args):
+        p = self._run(["git", "-C", str(d)] + list(args), check=False)
+        return p.returncode, p.stdout, p.stderr
+
+    def fresh(self) -> Path:
+        """An empty bare repository sharing the template's objects."""
+        import os
+        self.n += 1
+        d = self.root / f"r{self.n}"
+        (d / "refs" / "heads").mkdir(parents=True)
+        (d / "refs" / "tags").mkdir()
+        (d / "HEAD").write_bytes(b"ref: refs/heads/m\n")
+        (d / "config").write_text("[core]\n\trepositoryformatversion = 0\n\tfilemode = true\n\tbare = true\n")
+        os.symlink(self.tmpl / "objects", d / "objects")
+        return d
+
+    def build(self, init: list) -> Path:
+        """init: list of [kind, name, value] with kind packed|loose|symref (bytes).  Packed entries are
+        created first and packed by `git pack-refs --all` (so peeled lines, header and the absence of
+        directories are git's own), then loose refs / symrefs are written by git on top."""
+        d = self.fresh()
+        packed = [(n, v) for k, n, v in init if k == "packed"]
+        if packed:
+            self.git(d, "update-ref", "--stdin", inp=b"".join(b"update %s %s\n" % (n, v) for n, v in packed))
+            self.git(d, "pack-refs", "--all")
+        loose = [(n, v) for k, n, v in init if k == "loose" and n != HEAD]
+        if loose:
+            self.git(d, "update-ref", "--stdin", inp=b"".join(b"update %s %s\n" % (n, v) for n, v in loose))
+        for k, n, v in init:
+            if k == "symref":
+                self.git(d, "symbolic-ref", n.decode(), v.decode())
+            elif k == "loose" and n == HEAD:
+                self.git(d, "update-ref", "--no-deref", "HEAD", v.decode())
+        return d
+
+
+def read_disk(d: Path):
+    """Independent listing of the on-disk ref state: (files, dirs, packed, peeled)."""
+    import os
+    files, dirs, packed, peeled = {}, set(), {}, {}
+    h = d / "HEAD"
+    if h.is_file():
+        files[HEAD] = h.read_bytes().split(b"\n", 1)[0].rstrip(b"\r\n")
+    for root, ds, fs in os.walk(d / "refs"):
+        rel = os.path.relpath(root, d).replace(os.sep, "/").encode()
+        dirs.add(rel)
+        for f in fs:
+            files[rel + b"/" + f.encode()] = (Path(root) / f).read_bytes().split(b"\n", 1)[0].rstrip(b"\r\n")
+    p = d / "packed-refs"
+    if p.is_file():
+        last = None
+        for line in p.read_bytes().split(b"\n"):
+            line = line.rstrip(b"\r")
+            if not line or line.startswith(b"#"):
+                continue
+            if line.startswith(b"^"):
+                if last is not None:
+                    peeled[last] = line[1:]
+                continue
+            sha, name = line.split(b" ", 1)
+            packed[name] = sha
+            last = name
+    return files, dirs, packed, peeled
+
+
+def raw_of_disk(st) -> dict:
+    files, dirs, packed, peeled = st
+    m = dict(packed)
+    for k, v in files.items():
+        if v:
+            m[k] = v
+    return m
+
+
+def state_tokens(st) -> list[str]:
+    files, dirs, packed, peeled = st
+    t = []
+    for k in sorted(files):
+        t += ["F", hx(k), hx(files[k])]
+    for k in sorted(dirs):
+        t += ["D", hx(k)]
+    for k in sorted(packed):
+        t += ["P", hx(k), hx(packed[k])]
+    for k in sorted(peeled):
+        t += ["L", hx(k), hx(peeled[k])]
+    return t
+
+
+def op_tokens(op) -> list[str]:
+    k = op[0]
+    o = lambda x: "~" if x is None else hx(x)
+    if k == "S":
+        return ["S", hx(op[1]), o(op[2]), hx(op[3])]
+    if k in ("I", "A", "Y"):
+        return [k, hx(op[1]), hx(op[2])]
+    if k == "R":
+        return ["R", hx(op[1]), o(op[2])]
+    if k in ("X", "G", "W", "Q", "C", "E"):
+        return [k, hx(op[1])]
+    if k == "K":
+        return ["K", "1" if op[1] else "0"]
+    return [k]
+
+
+def parse_map(s: str) -> dict:
+    out = {}
+    for item in s.split(","):
+        if item:
+            k, v = item.split("=")
+            out[unhx(k)] = unhx(v)
+    return out
+
+
+def parse_list(s: str) -> list:
+    return [unhx(x) for x in s.split(",") if x]
+
+
+def parse_model_state(s: str):
+    parts = dict(p.split(":", 1) for p in s.split("/"))
+    return (parse_map(parts.get("F", "")), set(parse_list(parts.get("D", ""))),
+            parse_map(parts.get("P", "")), parse_map(parts.get("L", "")))
+
+
+def canon_ret(s: str):
+    """model/impl return strings -> comparable python value (maps and lists order-free)."""
+    if s.startswith("map:"):
+        return ("map", tuple(sorted(parse_map(s[4:]).items())))
+    if s.startswith("list:"):
+        return ("list", tuple(sorted(parse_list(s[5:]))))
+    return s
+
+
+# ------------------------------------------------------------------------------------------------
+# running one operation on a real container
+
+def exc_name(e: BaseException) -> str:
+    from dulwich.errors import RefFormatError
+    from dulwich.refs import SymrefLoop
+    if isinstance(e, RefFormatError):
+        return "refformat"
+    if isinstance(e, SymrefLoop):
+        return "symrefloop"
+    if isinstance(e, OSError):
+        return "os"
+    if isinstance(e, KeyError):
+        return "key"
+    if isinstance(e, NotImplementedError):
+        return "notimpl"
+    if type(e) is ValueError:
+        return "value"
+    return "exc:" + type(e).__name__
+
+
+def show_map(m: dict) -> str:
+    return "map:" + ",".join(hx(k) + "=" + hx(v) for k, v in sorted(m.items()))
+
+
+def apply_op(c, op) -> str:
+    """Run `op` on container `c`; the result in the driver's `ret` syntax."""
+    import warnings
+    k = op[0]
+    try:
+        with warnings.catch_warnings():
+            warnings.simplefilter("ignore")
+            if k == "S":
+                return "ok:1" if c.set_if_equals(op[1], op[2], op[3]) else "ok:0"
+            if k == "I":
+                c[op[1]] = op[2]
+                return "ok"
+            if k == "A":
+                return "ok:1" if c.add_if_new(op[1], op[2]) else "ok:0"
+            if k == "R":
+                return "ok:1" if c.remove_if_equals(op[1], op[2]) else "ok:0"
+            if k == "X":
+                del c[op[1]]
+                return "ok"
+            if k == "Y":
+                c.set_symbolic_ref(op[1], op[2])
+                return "ok"
+            if k == "K":
+                c.pack_refs(all=op[1])
+                return "ok"
+            if k == "G":
+                return "val:" + hx(c[op[1]])
+            if k == "W":
+                names, v = c.follow(op[1])
+                return "chain:" + ",".join(hx(n) for n in names) + ">" + ("none" if v is None else "val:" + hx(v))
+            if k == "Q":
+                v = c.read_ref(op[1])
+                return "none" if v is None else "val:" + hx(v)
+            if k == "C":
+                return "ok:1" if op[1] in c else "ok:0"
+            if k == "E":
+                v = c.get_peeled(op[1])
+                return "none" if v is None else "val:" + hx(v)
+            if k == "T":
+                return show_map(c.as_dict())
+            if k == "M":
+                return show_map(c.get_symrefs())
+            if k == "U":
+                return "list:" + ",".join(hx(x) for x in sorted(c.allkeys()))
+    except Exception as e:  # noqa: BLE001 - classified, never swallowed
+        return "err:" + exc_name(e)
+    raise core.InfraError(f"unknown op {op!r}")
+
+
+# ------------------------------------------------------------------------------------------------
+# the trivially simple map spec (the oracle; independent of the Lean model)
+
+def spec_follow(m: dict, name: bytes):
+    """-> (chain, value|None) following symrefs; 'loop' on a revisit; 'deep' beyond git's 5 hops."""
+    chain, cur, seen = [], name, set()
+    while True:
+        if cur in seen:
+            return "loop"
+        seen.add(cur)
+        chain.append(cur)
+        v = m.get(cur)
+        if v is None or not v.startswith(SYM):
+            return chain, v
+        if len(chain) > 5:
+            return "deep"
+        cur = v[len(SYM):]
+
+
+def spec_as_dict(m: dict) -> dict:
+    out = {}
+    for k in m:
+        f = spec_follow(m, k)
+        if isinstance(f, tuple) and f[1] is not None:
+            out[k] = f[1]
+    return out
+
+
+def valid_value(v: bytes) -> bool:
+    return (len(v) in (40, 64) and all(c in b"0123456789abcdefABCDEF" for c in v)) or v.startswith(SYM)
+
+
+REFUSED = "refused"   # an exception or False, state unchanged
+
+
+def spec_step(m: dict, op, universe):
+    """Allowed outcomes of `op` in raw state `m` according to the property's words:
+    a list of (ret-predicate, post-state) pairs, or None when the property does not say (skip)."""
+    k = op[0]
+    if k in ("S", "I", "A"):
+        name, new = op[1], op[-1]
+        old = op[2] if k == "S" else None
+        if name not in universe:
+            return None
+        if not valid_value(new):
+            return [("err:value", m)]
+        f = spec_follow(m, name)
+        if not isinstance(f, tuple):
+            return None                                  # update through a symref loop: not specified
+        chain, cur = f
+        r = chain[-1]
+        if r not in universe and r != MISSING_TARGET:
+            return None
+        if k == "A" and cur is not None:
+            return [("ok:0", m)]
+        if r not in m and collides(m, r):
+            return [(REFUSED, m)]
+        if old is None or m.get(r, ZERO) == old:
+            m2 = dict(m)
+            m2[r] = new
+            return [("ok" if k == "I" else "ok:1", m2)]
+        return [("ok:0", m)]
+    if k in ("R", "X"):
+        name = op[1]
+        old = op[2] if k == "R" else None
+        if name not in universe:
+            return None
+        if old is None or m.get(name, ZERO) == old:
+            m2 = dict(m)
+            m2.pop(name, None)
+            outs = [("ok" if k == "X" else "ok:1", m2)]
+            if name not in m and collides(m, name):
+                outs.append((REFUSED, m))
+            return outs
+        return [("ok:0", m)]
+    if k == "Y":
+        name, target = op[1], op[2]
+        if name not in universe or (target not in universe and target != MISSING_TARGET):
+            return None
+        if name not in m and collides(m, name):
+            return [(REFUSED, m)]
+        m2 = dict(m)
+        m2[name] = SYM + target
+        return [("ok", m2)]
+    if k in ("K", "O"):
+        return [("ok", m)]
+    return None
+
+
+def ret_matches(pred: str, ret: str) -> bool:
+    if pred == REFUSED:
+        return ret.startswith("err:") or ret == "ok:0"
+    return pred == ret
+
+
+def spec_read(m: dict, op, peel):
+    """Expected result of a read op, or None when not specified; a set of allowed ret strings."""
+    k = op[0]
+    if k in ("G", "W", "Q", "C", "E"):
+        name = op[1]
+        f = spec_follow(m, name)
+        if k == "Q":
+            v = m.get(name)
+            return {"none" if v is None else "val:" + hx(v)}
+        if k == "C":
+            return {"ok:1" if name in m else "ok:0"}
+        if f == "deep":
+            return None
+        if k == "G":
+            if f == "loop":
+                return {"err:symrefloop", "err:key"}
+            return {"err:key" if f[1] is None else "val:" + hx(f[1])}
+        if k == "W":
+            if f == "loop":
+                return {"err:symrefloop"}
+            return {"chain:" + ",".join(hx(n) for n in f[0]) + ">" + ("none" if f[1] is None else "val:" + hx(f[1]))}
+        if k == "E":
+            # "no cached information" (None) is always acceptable; otherwise it must be the true peeled value
+            if not isinstance(f, tuple) or f[1] is None or f[1] not in peel:
+                return None
+            return {"none", "val:" + hx(peel[f[1]])}
+    if k == "T":
+        if any(spec_follow(m, x) == "deep" for x in m):
+            return None
+        return {show_map(spec_as_dict(m))}
+    if k == "M":
+        return {show_map({x: v[len(SYM):] for x, v in m.items() if v.startswith(SYM)})}
+    if k == "U":
+        return {"list:" + ",".join(hx(x) for x in sorted(m))}
+    return None
+
+
+# ------------------------------------------------------------------------------------------------
+# backends under test
+
+BACKENDS = ["disk", "dict", "reftable", "nsdisk", "nsdict"]
+
+
+def ns_apply(n: bytes) -> bytes:
+    return n if (n == HEAD or not n.startswith(b"refs/")) else NS_PREFIX + n
+
+
+class Target:
+    """One real container plus the means to observe it independently of the code under test."""
+
+    def __init__(self, backend: str, repos: Repos, init: list):
+        self.backend, self.repos = backend, repos
+        self.dir = None
+        self.store = None
+        if backend in ("disk", "nsdisk"):
+            ini = init
+            if backend == "nsdisk":
+                ini = [[k, ns_apply(n), (ns_apply(v) if k == "symref" else v)] for k, n, v in init]
+                ini.append(["loose", OUTSIDE, repos.C])
+            self.dir = repos.build(ini)
+        elif backend in ("dict", "nsdict"):
+            m = {HEAD: SYM + b"refs/heads/m"}
+            for kind in ("packed", "loose", "symref"):      # loose over packed, as on disk
+                for k, n, v in init:
+                    if k == kind:
+                        n2 = ns_apply(n) if backend == "nsdict" else n
+                        v2 = (SYM + (ns_apply(v) if backend == "nsdict" else v)) if k == "symref" else v
+                        m[n2] = v2
+            if backend == "nsdict":
+                m[OUTSIDE] = repos.C
+            self.store = m
+        else:
+            self.dir = repos.root / f"t{repos.n}"
+            repos.n += 1
+            self.dir.mkdir()
+        self.open()
+        if backend == "reftable":
+            self.c.set_symbolic_ref(HEAD, b"refs/heads/m")
+            for kind in ("packed", "loose", "symref"):
+                for k, n, v in init:
+                    if k != kind:
+                        continue
+                    if k == "symref":
+                        self.c.set_symbolic_ref(n, v)
+                    elif not self.c.add_if_new(n, v):
+                        self.c.remove_if_equals(n, self.c.read_loose_ref(n))
+                        self.c.add_if_new(n, v)
+
+    def open(self):
+        from dulwich.refs import DictRefsContainer, DiskRefsContainer, NamespacedRefsContainer
+        b = self.backend
+        if b == "disk":
+            self.c = DiskRefsContainer(str(self.dir))
+        elif b == "nsdisk":
+            self.inner = DiskRefsContainer(str(self.dir))
+            self.c = NamespacedRefsContainer(self.inner, NS)
+        elif b == "dict":
+            self.c = DictRefsContainer(self.store)
+        elif b == "nsdict":
+            self.inner = DictRefsContainer(self.store)
+            self.c = NamespacedRefsContainer(self.inner, NS)
+        else:
+            from dulwich.reftable import ReftableRefsContainer
+            self.c = ReftableRefsContainer(str(self.dir))
+
+    def observe(self):
+        """-> (state comparable with the model's, raw map of the container's own name space,
+        raw map of everything outside that name space)"""
+        b = self.backend
+        if b in ("disk", "nsdisk"):
+            st = read_disk(self.dir)
+            raw = raw_of_disk(st)
+        elif b in ("dict", "nsdict"):
+            st = dict(self.store)
+            raw = {k: v for k, v in st.items() if v}
+        else:
+            raw = {}
+            for n in NAMES + [MISSING_TARGET, BAD_NAME]:
+                try:
+                    raw[n] = self.c.read_loose_ref(n)
+                except KeyError:
+                    pass
+            st = dict(raw)
+        if b in ("nsdisk", "nsdict"):
+            view, outside = {}, {}
+            for k, v in raw.items():
+                if k == HEAD or not k.startswith(b"refs/"):
+                    view[k] = v
+                elif k.startswith(NS_PREFIX):
+                    view[k[len(NS_PREFIX):]] = v
+                else:
+                    outside[k] = v
+            return st, view, outside
+        return st, raw, {}
+
+    def model_kind(self) -> str:
+        return {"nsdisk": "nsdisk:" + hx(NS), "nsdict": "nsdict:" + hx(NS)}.get(self.backend, self.backend)
+
+    def model_state_tokens(self, st) -> list[str]:
+        if self.backend in ("disk", "nsdisk"):
+            return state_tokens(st)
+        t = []
+        for k in sorted(st):
+            t += ["F", hx(k), hx(st[k])]
+        return t
+
+
+def supported(backend: str, op) -> bool:
+    k = op[0]
+    if backend in ("dict", "nsdict"):
+        return k not in ("K", "E")
+    if backend == "reftable":
+        if k in ("S", "A") and not valid_value(op[-1]):
+            return False                 # no _check_ref_value on these paths: the table writer would choke
+        if k in ("S", "I", "A") and op[-1].startswith(SYM):
+            return False                 # raw "ref: x" as a direct value cannot be encoded as a table value
+        return k in ("S", "I", "A", "R", "X", "Y", "O")
+    return True
+
+
+# ------------------------------------------------------------------------------------------------
+# generators
+
+def gen_init(rng, repos: Repos) -> list:
+    """A non-colliding initial layout: each chosen name loose, packed, or packed with a newer loose
+    value on top; symrefs (chains, dangling, HEAD attached/detached)."""
+    if rng.random() < 0.15:
+        return []
+    init, have = [], {}
+    names = [n for n in NAMES[1:] if rng.random() < 0.45]
+    for n in names:
+        if collides(have, n):
+            continue
+        v = repos.TG if (n.startswith(b"refs/tags/") and rng.random() < 0.7) else rng.choice(repos.values)
+        mode = rng.choice(["loose", "packed", "packed", "both"])
+        if mode in ("packed", "both"):
+            init.append(["packed", n, v])
+        if mode == "loose":
+            init.append(["loose", n, v])
+        if mode == "both":
+            init.append(["loose", n, rng.choice([x for x in repos.values if x != v])])
+        have[n] = v
+    for n in (b"refs/heads/s", b"refs/heads/t"):
+        if n not in have and not collides(have, n) and rng.random() < 0.4:
+            init.append(["symref", n, rng.choice([x for x in NAMES[1:] if x != n] + [MISSING_TARGET])])
+            have[n] = b"sym"
+    r = rng.random()
+    if r < 0.3:
+        init.append(["loose", HEAD, rng.choice(repos.values)])          # detached
+    elif r < 0.6:
+        init.append(["symref", HEAD, rng.choice([b"refs/heads/a", b"refs/heads/s", b"refs/heads/a/b"])])
+    return init
+
+
+def pick_name(rng) -> bytes:
+    if rng.random() < 0.03:
+        return BAD_NAME
+    return rng.choices(NAMES, WEIGHTS)[0]
+
+
+def gen_op(rng, m: dict, repos: Repos):
+    """One operation, biased by the current raw state `m` so that conditions hold about half the time."""
+    r = rng.random()
+    name = pick_name(rng)
+
+    def val():
+        x = rng.random()
+        if x < 0.03:
+            return BAD_VALUE
+        if x < 0.05:
+            return SYM + rng.choice(NAMES[1:])
+        return rng.choice(repos.values)
+
+    def old_for(n):
+        f = spec_follow(m, n)
+        real = f[0][-1] if isinstance(f, tuple) else n
+        x = rng.random()
+        if x < 0.45:
+            return None
+        if x < 0.75:
+            return m.get(real, ZERO)
+        if x < 0.83:
+            return ZERO
+        return rng.choice(repos.values)
+    if r < 0.22:
+        return ["S", name, old_for(name), val()]
+    if r < 0.32:
+        return ["I", name, val()]
+    if r < 0.42:
+        return ["A", name, val()]
+    if r < 0.50:
+        x = rng.random()
+        return ["R", name, None if x < 0.3 else (m.get(name, ZERO) if x < 0.75 else rng.choice(repos.values + [ZERO]))]
+    if r < 0.57:
+        return ["X", name]
+    if r < 0.68:
+        n = HEAD if rng.random() < 0.25 else name
+        return ["Y", n, rng.choice(NAMES[1:] + [MISSING_TARGET])]
+    if r < 0.74:
+        return ["K", rng.random() < 0.75]
+    if r < 0.77:
+        return ["O"]
+    if r < 0.82:
+        return ["G", name]
+    if r < 0.84:
+        return ["W", name]
+    if r < 0.86:
+        return ["Q", name]
+    if r < 0.87:
+        return ["C", name]
+    if r < 0.91:
+        return ["E", rng.choice([n for n in NAMES if n.startswith(b"refs/tags/")] + [name])]
+    if r < 0.95:
+        return ["T"]
+    if r < 0.98:
+        return ["M"]
+    return ["U"]
+
+
+# ------------------------------------------------------------------------------------------------
+# classification of oracle failures (narrow classes; anything else stays unclassified)
+
+def classify(backend: str, op, ret: str, pre_raw: dict, post_raw: dict, pre_st, repos: Repos):
+    k = op[0]
+    disk = backend in ("disk", "nsdisk")
+    ap = (lambda n: ns_apply(n)) if backend in ("nsdisk", "nsdict") else (lambda n: n)
+    if k == "Y" and ret == "err:symrefloop" and spec_follow(pre_raw, op[1]) in ("loop", "deep"):
+        return "set_symbolic_ref-on-symref-loop"
+    if backend in ("nsdisk", "nsdict") and k == "Y" and ret == "ok" and \
+            post_raw.get(op[1]) == SYM + ns_apply(op[2]) and op[2].startswith(b"refs/"):
+        return "namespaced-symref-target-not-translated"
+    if backend == "reftable":
+        if k in ("S", "I") and (k == "I" or op[2] is None) and op[1] in pre_raw and post_raw == pre_raw:
+            return "reftable-unconditional-set-dropped"
+        if k in ("R", "X") and (k == "X" or op[2] is None) and op[1] in pre_raw and post_raw == pre_raw:
+            return "reftable-unconditional-delete-dropped"
+        if k in ("S", "R") and op[2] == ZERO and op[1] not in pre_raw and ret == "ok:0":
+            return "reftable-zero-sha-old-not-absent"
+        return None
+    if not disk:
+        return None
+    files, dirs, packed, peeled = pre_st
+    if k in ("S", "I", "A", "Y"):
+        f = spec_follow(pre_raw, op[1]) if k != "Y" else ([op[1]], None)
+        if isinstance(f, tuple):
+            r = f[0][-1]
+            pr = ap(r)
+            loose_coll = any(is_anc(x, pr) or is_anc(pr, x) for x in files)
+            desc_packed = any(is_anc(pr, x) for x in packed)
+            anc_packed = any(is_anc(x, pr) for x in packed)
+            if r in post_raw and r not in pre_raw and not loose_coll:
+                if desc_packed:
+                    return "disk-create-over-packed-only-descendant"
+                if anc_packed and k in ("A", "Y"):
+                    return "disk-create-under-packed-only-ancestor"
+            if ret == "err:os" and not collides(pre_raw, r):
+                if pr in dirs:
+                    return "disk-stale-empty-directory-blocks-create"
+                parent = pr.rsplit(b"/", 1)[0] if b"/" in pr else None
+                if k == "Y" and parent is not None and parent not in dirs:
+                    return "disk-set_symbolic_ref-parent-directory-missing"
+    if k == "K":
+        loops = [x for x in pre_raw if x != HEAD and spec_follow(pre_raw, x) in ("loop", "deep")]
+        if ret == "err:symrefloop" and loops:
+            return "disk-pack_refs-raises-on-symref-loop"
+        if ret == "ok":
+            changed = [x for x in set(pre_raw) | set(post_raw) if pre_raw.get(x) != post_raw.get(x)]
+            if changed and all(x in pre_raw and pre_raw[x].startswith(SYM) and x != HEAD and
+                               post_raw.get(x) == spec_as_dict(pre_raw).get(x) for x in changed):
+                return "disk-pack_refs-replaces-symref-by-value"
+    if k == "E":
+        n = ap(op[1])
+        if n in packed:
+            if n in files and n in peeled:
+                return "disk-get_peeled-stale-under-loose-override"
+            if n in peeled and repos.peel.get(packed[n]) != peeled[n]:
+                return "disk-get_peeled-stale-peeled-line"
+            if n not in peeled and repos.peel.get(packed[n]) != packed[n]:
+                return "disk-get_peeled-annotated-tag-packed-without-peeled-line"
+    return None
+
+
+# ------------------------------------------------------------------------------------------------
+# JSON forms of cases (replay files, corpus)
+
+def op_to_json(op):
+    return [op[0]] + [(x if isinstance(x, bool) else None if x is None else hx(x)) for x in op[1:]]
+
+
+def op_from_json(j):
+    return [j[0]] + [(x if isinstance(x, bool) else None if x is None else unhx(x)) for x in j[1:]]
+
+
+def init_to_json(init):
+    return [[k, hx(n), hx(v)] for k, n, v in init]
+
+
+def init_from_json(j):
+    return [[k, unhx(n), unhx(v)] for k, n, v in j]
+
+
+def seq_case(backend, init, ops, step=None):
+    c = {"backend": backend, "init": init_to_json(init), "ops": [op_to_json(o) for o in ops]}
+    if step is not None:
+        c["failing_step"] = step
+        c["failing_op_readable"] = repr(ops[step])[:200]
+    return c
+
+
+# ------------------------------------------------------------------------------------------------
+# the per-step oracle and the third-party (C git) view
+
+MUTATORS = ("S", "I", "A", "R", "X", "Y", "K", "O")
+
+
+def oracle_step(ctx, stream, mk_case, backend, op, ret, pre, post, repos):
+    pre_st, pre_raw, pre_out = pre
+    post_st, post_raw, post_out = post
+    k = op[0]
+    if pre_out != post_out:
+        ctx.oracle_fail(stream, mk_case(), f"operation through the namespace changed refs outside it: "
+                                           f"{sorted(set(pre_out.items()) ^ set(post_out.items()))[:2]}", None)
+    simple = backend in ("dict", "reftable", "nsdict")
+    if k in MUTATORS:
+        if simple and k in ("S", "I", "A", "Y", "R", "X"):
+            # the statement compares these backends only "on sequences that do not write through symbolic
+            # refs or use colliding names"
+            if k in ("S", "I", "A") and pre_raw.get(op[1], b"").startswith(SYM):
+                return "skip"
+            f = spec_follow(pre_raw, op[1]) if k in ("S", "I", "A") else ([op[1]], None)
+            r = f[0][-1] if isinstance(f, tuple) else op[1]
+            if collides(pre_raw, r):
+                return "skip"
+        allowed = spec_step(pre_raw, op, set(NAMES))
+        if allowed is None:
+            return "unspecified"
+        for pred, m2 in allowed:
+            if ret_matches(pred, ret) and post_raw == m2:
+                return "ok"
+        cls = classify(backend, op, ret, pre_raw, post_raw, pre_st, repos)
+        exp = " or ".join(f"{p} with {'unchanged state' if m2 == pre_raw else 'the updated map'}" for p, m2 in allowed)
+        diff = sorted(x for x in set(post_raw) | set(allowed[0][1]) if post_raw.get(x) != allowed[0][1].get(x))
+        ctx.oracle_fail(stream, mk_case(), f"{backend}: {op_readable(op)} returned {ret}; the map spec says {exp}; "
+                                           f"refs that differ from the spec afterwards: {diff[:3]}", cls)
+        return "fail"
+    exp = spec_read(pre_raw, op, repos.peel)
+    if post_raw != pre_raw:
+        ctx.oracle_fail(stream, mk_case(), f"{backend}: read operation {op_readable(op)} changed the refs", None)
+        return "fail"
+    if exp is None:
+        return "unspecified"
+    if canon_ret(ret) in {canon_ret(e) for e in exp}:
+        return "ok"
+    cls = classify(backend, op, ret, pre_raw, post_raw, pre_st, repos)
+    ctx.oracle_fail(stream, mk_case(), f"{backend}: {op_readable(op)} gave {ret[:120]}; the map spec says "
+                                       f"{sorted(exp)[0][:120]}", cls)
+    return "fail"
+
+
+def op_readable(op) -> str:
+    return op[0] + "(" + ", ".join("None" if x is None else repr(x) if isinstance(x, bool) else
+                                     (x[:8] + b".." if len(x) >= 40 else x).decode("latin1") for x in op[1:]) + ")"
+
+
+def git_view_check(ctx, stream, mk_case, repos: Repos, d: Path, st, c):
+    """C git as third party on the directory the files backend wrote: for-each-ref, symbolic-ref,
+    show-ref -d against the map spec's view of the raw state, and against dulwich's own as_dict()."""
+    files, dirs, packed, peeled = st
+    raw = raw_of_disk(st)
+    if not files.get(HEAD):
+        return "no-HEAD"
+    if any(collides(raw, k) for k in raw):
+        return "collision"                      # only reachable through a (separately reported) refusal failure
+    if any(spec_follow(raw, k) == "deep" for k in raw):
+        return "deep"
+    view = spec_as_dict(raw)
+    exp = {k: v for k, v in view.items() if k.startswith(b"refs/")}
+    rc, out, err = repos.git_rc(d, "for-each-ref", "--format=%(refname) %(objectname)")
+    got = dict(line.split(b" ") for line in out.splitlines()) if rc == 0 else None
+    if got != exp:
+        diff = sorted(k for k in set(exp) | set(got or {}) if exp.get(k) != (got or {}).get(k))
+        ctx.oracle_fail(stream, mk_case(), f"git for-each-ref (rc={rc}) disagrees with the map on {diff[:3]}: "
+                                           f"git={[(got or {}).get(k) for k in diff[:3]]} {err[:100]!r}", None)
+    try:
+        mine = {k: v for k, v in c.as_dict().items() if k.startswith(b"refs/")}
+    except Exception as e:  # noqa: BLE001
+        mine = "err:" + exc_name(e)
+    if got is not None and mine != got:
+        ctx.oracle_fail(stream, mk_case(), f"git for-each-ref and as_dict() list different refs: {mine!r:.200} vs "
+                                           f"{got!r:.200}", None)
+    for k, v in sorted(raw.items()):
+        if v.startswith(SYM):
+            rc, out, err = repos.git_rc(d, "symbolic-ref", k.decode())
+            if rc != 0 or out.rstrip(b"\n") != v[len(SYM):]:
+                ctx.oracle_fail(stream, mk_case(), f"git symbolic-ref {k!r} -> rc={rc} {out!r}, expected {v[len(SYM):]!r}",
+                                None)
+    if HEAD in view:
+        rc, out, err = repos.git_rc(d, "rev-parse", "--verify", "-q", "HEAD")
+        if rc != 0 or out.strip() != view[HEAD]:
+            ctx.oracle_fail(stream, mk_case(), f"git rev-parse HEAD -> rc={rc} {out!r}, expected {view[HEAD]!r}", None)
+    rc, out, err = repos.git_rc(d, "show-ref", "-d")
+    got_lines = set(out.splitlines())
+    exp_lines = set()
+    for k, v in exp.items():
+        exp_lines.add(v + b" " + k)
+        if repos.peel.get(v, v) != v:
+            exp_lines.add(repos.peel[v] + b" " + k + b"^{}")
+    for line in sorted(got_lines ^ exp_lines):
+        sha, name = line.split(b" ", 1)
+        cls = None
+        if name.endswith(b"^{}"):
+            n = name[:-3]
+            if n in packed and n not in files:
+                if n in peeled and repos.peel.get(packed[n]) != peeled[n]:
+                    cls = "git-show-ref-stale-peeled-line"
+                elif n not in peeled and repos.peel.get(packed[n]) != packed[n]:
+                    cls = "git-show-ref-annotated-tag-packed-without-peeled-line"
+        ctx.oracle_fail(stream, mk_case(), f"git show-ref -d: line {line!r} is "
+                                           f"{'missing' if line in exp_lines else 'unexpected'}", cls)
+    return "checked"
+
+
+# ------------------------------------------------------------------------------------------------
+# sequences
+
+class SeqResult:
+    def __init__(self):
+        self.ops, self.rets, self.states = [], [], []
+        self.st0 = None
+        self.line = None
+
+
+def run_sequence(ctx, repos, backend, init, ops=None, n_ops=30, rng=None, stream=None, git_every=0,
+                 oracle=True) -> SeqResult:
+    """Run `ops` (or generate n_ops adaptively) on a fresh real container of kind `backend`; per-step
+    oracle; returns what is needed to compare with the model afterwards."""
+    stream = stream or "seq." + backend
+    tgt = Target(backend, repos, init)
+    res = SeqResult()
+    cur = tgt.observe()
+    res.st0 = cur[0]
+    todo = list(ops) if ops is not None else None
+    i = 0
+    tries = 0
+    while (todo is not None and i < len(todo)) or (todo is None and len(res.ops) < n_ops and tries < 10 * n_ops):
+        tries += 1
+        if todo is not None:
+            op = todo[i]
+            i += 1
+        else:
+            op = gen_op(rng, cur[1], repos)
+        if not supported(backend, op):
+            continue
+        step = len(res.ops)
+        if op[0] == "O":
+            tgt.open()
+            ret = "ok"
+        else:
+            ret = apply_op(tgt.c, op)
+        post = tgt.observe()
+        res.ops.append(op)
+        res.rets.append(ret)
+        res.states.append(post[0])
+        mk = (lambda s=step: seq_case(backend, init, res.ops[: s + 1], s))
+        verdict = "unchecked"
+        if oracle:
+            verdict = oracle_step(ctx, stream, mk, backend, op, ret, cur, post, repos)
+        key = (backend, tuple(op_tokens(op)), hash(tuple(sorted(cur[1].items()))))
+        ctx.count(stream, key, verdict in ("ok", "fail"), f"{op[0]}:{ret.split(':')[0] if ret.startswith(('ok', 'err')) else ret[:3]}:{verdict}")
+        cur = post
+        if oracle and git_every and backend in ("disk", "nsdisk") and (step + 1) % git_every == 0:
+            v = git_view_check(ctx, stream + ".git", mk, repos, tgt.dir, post[0], tgt.c if backend == "disk" else tgt.inner)
+            ctx.count(stream + ".git", (key, "mid"), v == "checked", v)
+    if oracle and backend in ("disk", "nsdisk"):
+        mk = (lambda: seq_case(backend, init, res.ops, len(res.ops) - 1 if res.ops else None))
+        v = git_view_check(ctx, stream + ".git", mk, repos, tgt.dir, cur[0], tgt.c if backend == "disk" else tgt.inner)
+        ctx.count(stream + ".git", (backend, hash(tuple(sorted(cur[1].items())))), v == "checked", v)
+    res.line = " ".join(["c16.seq", tgt.model_kind()] + tgt.model_state_tokens(res.st0) + ["--"] +
+                        [t for op in res.ops for t in op_tokens(op)])
+    res.backend, res.init = backend, init
+    return res
+
+
+def compare_with_model(ctx, results: list):
+    """One driver batch for all recorded sequences; per-step comparison of return value and state."""
+    outs = ctx.driver.batch([r.line for r in results])
+    for r, out in zip(results, outs):
+        stream = "seq." + r.backend + ".model"
+        if not r.ops:
+            continue
+        steps = out.split(";")
+        if out == "bad-arg" or len(steps) != len(r.ops):
+            ctx.disagree(stream, seq_case(r.backend, r.init, r.ops), out[:200], f"{len(r.ops)} steps")
+            continue
+        for i, (s, op, ret, st) in enumerate(zip(steps, r.ops, r.rets, r.states)):
+            mret, mstate = s.split("|", 1)
+            if r.backend in ("disk", "nsdisk"):
+                mst = parse_model_state(mstate)
+                same_state = mst == (st[0], st[1], st[2], st[3])
+            else:
+                mst = parse_map(mstate.split(":", 1)[1])
+                same_state = mst == st
+            ctx.count(stream, (r.line, i), True, op[0])
+            if canon_ret(mret) != canon_ret(ret) or not same_state:
+                what = "return value" if canon_ret(mret) != canon_ret(ret) else "state"
+                ctx.disagree(stream, seq_case(r.backend, r.init, r.ops[: i + 1], i),
+                             f"{mret[:160]} | {_state_diff(mst, st)}", f"{ret[:160]} ({what} differs at step {i}: {op_readable(op)})",
+                             r.backend)
+                break
+
+
+def _state_diff(mst, st) -> str:
+    if isinstance(mst, tuple):
+        out = []
+        for nm, a, b in zip(("files", "dirs", "packed", "peeled"), mst, st):
+            if a != b:
+                if isinstance(a, set):
+                    out.append(f"{nm}: model-only {sorted(a - b)} impl-only {sorted(b - a)}")
+                else:
+                    ks = sorted(k for k in set(a) | set(b) if a.get(k) != b.get(k))
+                    out.append(f"{nm}: " + ", ".join(f"{k!r}: model {a.get(k)!r:.30} impl {b.get(k)!r:.30}" for k in ks[:3]))
+        return "; ".join(out) or "same state"
+    ks = sorted(k for k in set(mst) | set(st) if mst.get(k) != st.get(k))
+    return ", ".join(f"{k!r}: model {mst.get(k)!r:.30} impl {st.get(k)!r:.30}" for k in ks[:3]) or "same state"
+
+
+def stream_sequences(ctx, repos, n_seq, n_ops=30, git_every=0):
+    rng = ctx.rng
+    results = []
+    for i in range(n_seq):
+        init = gen_init(rng, repos)
+        primary = BACKENDS[i % len(BACKENDS)] if i % 2 else "disk"
+        length = rng.choice([5, 10, 20, n_ops, n_ops])
+        first = run_sequence(ctx, repos, primary, init, None, length, rng, git_every=git_every)
+        results.append(first)
+        for b in BACKENDS:
+            if b != primary:
+                results.append(run_sequence(ctx, repos, b, init, first.ops, git_every=git_every))
+        if len(ctx.samples) < 3 and first.ops:
+            ctx.sample({"stream": "seq." + primary, "init": [[k, n.decode(), v.decode()[:12]] for k, n, v in init],
+                        "ops": [op_readable(o) for o in first.ops[:8]], "rets": first.rets[:8]})
+        if len(results) >= 200:
+            compare_with_model(ctx, results)
+            results = []
+    compare_with_model(ctx, results)
